@@ -167,7 +167,7 @@ func (d *Director) DirectorFunc(target *url.URL) func(*http.Request) {
 }
 
 // protectSignedHeaders removes from the Connection header the tokens that name a header covered by the request
-// signature (among them the identity headers set by sso proxy). httputil.ReverseProxy treats the headers named
+// signature (among them the identity headers set by sso proxy) or a signature header itself. httputil.ReverseProxy treats the headers named
 // in Connection as hop-by-hop and removes them from the outgoing request.
 func protectSignedHeaders(h http.Header) {
 	values, ok := h["Connection"]
@@ -181,9 +181,11 @@ func protectSignedHeaders(h http.Header) {
 			if token == "" {
 				continue
 			}
-			signed := false
+			name := http.CanonicalHeaderKey(token)
+			// the signatures themselves must reach the upstream too
+			signed := name == signatureHeader || name == http.CanonicalHeaderKey(signingKeyHeader) || name == HMACSignatureHeader
 			for _, hdr := range signedHeaders {
-				if http.CanonicalHeaderKey(token) == hdr {
+				if name == hdr {
 					signed = true
 				}
 			}
